@@ -836,3 +836,7 @@ Section Model.
       end.
   End WithSchema.
 End Model.
+
+Arguments GOk {A} a.
+Arguments GNil {A}.
+Arguments GErr {A} e.
